@@ -69,6 +69,9 @@ SignL(Bi, q) == TLCEval([s \in 1..Len(Bi) |-> [a \in 1..Len(Bi[1]) |-> [b \in 1.
                     IF q[a] % 2 = 0 THEN Bi[s][a][b] ELSE GNeg(Bi[s][a][b])]]])
 
 -----------------------------------------------------------------------------
+\* number of Jordan-Wigner-string operators applied so far
+JWCount == Cardinality({k \in 1..Len(hist) : "jw" \in DOMAIN hist[k].l /\ hist[k].l.jw})
+
 \* norm bookkeeping shared by all steps that end in canonical_form(renormalize)
 Step(big) == /\ nops' = nops + 1 /\ phase' = phase /\ Rec(big)
 Live == phase = "live" /\ nops < MaxConv
@@ -87,7 +90,9 @@ LocalOp(i, name, uni, rn) ==
            R1 == IF R.known /\ ~canon
                  THEN [R EXCEPT !.B[i + 1] = IF jw THEN OpOnB(SignL(@, R.qb[i + 1]), O) ELSE OpOnB(@, O)]
                  ELSE Frame(R)
-       IN /\ (jw => (~Inf(R) /\ R.cons # "none" /\ (R.bc = "segment" => R.known)))
+       \* JW strings are read off the bond charges: documented to be reliable only while no tensor carries a total charge
+       \* (first fermionic operator of a history, bond charges that count the particles to the left)
+       IN /\ (jw => (~Inf(R) /\ R.cons # "none" /\ (R.bc = "segment" => R.known) /\ JWCount = 0 /\ (R.known => ZeroQtotal(R))))
           /\ (Inf(R) => (R.known /\ ~canon))
           /\ (canon => ~Inf(R) /\ NL(R) >= 2)
           /\ (~canon => mode \in {"raw", "loose"} \/ IsUnitary(name))
@@ -411,7 +416,6 @@ Spec9 == Init /\ [][Next9]_vars
 \* Rep up to the documented caveat of apply_JW_string_left_of_virt_leg: the signs are read off the charges of the
 \* bond, which no longer count the fermions once an operator changed the total charge of a tensor -- from the second
 \* Jordan-Wigner string of a history on, an overall sign may be lost (TLC finds the counterexample for plain Rep)
-JWCount == Cardinality({k \in 1..Len(hist) : "jw" \in DOMAIN hist[k].l /\ hist[k].l.jw})
 Rep9 == (phase # "init" /\ R.known) => (Contract(R) = psi \/ (JWCount >= 2 /\ Contract(R) = TScale(<<-1, 0>>, psi)))
 \* spatial inversion is an involution on the representation and on the state
 InversionInvolution == (phase # "init" /\ R.known) => InvRep(InvRep(R)) = R
